@@ -76,3 +76,17 @@ MUTANTS += [
     M("c01-kwargs-order", "C01", "async call loses keyword arguments", (H, "        return asyncreq(self.proxy, HANDLE_CALL, args, tuple(kwargs.items()))", "        return asyncreq(self.proxy, HANDLE_CALL, args, tuple(kwargs.items())[:1])")),
     M("c01-args-reversed-in-tuple", "C01", "LABEL_TUPLE of length 4 unboxed reversed", (P, "            return tuple(self._unbox(item) for item in value)", "            return tuple(self._unbox(item) for item in (value if len(value) != 4 else value[::-1]))")),
 ]
+
+MUTANTS += [
+    # ---- C09
+    M("c09-ctor", "C09", "exception rebuilt with cls(*args) (constructor runs)", (V, "        exc = cls.__new__(cls)\n", "        exc = cls(*args) if cls.__module__ != 'builtins' else cls.__new__(cls)\n")),
+    M("c09-no-subclass-check", "C09,C07", "issubclass(BaseException) check dropped", (V, "    if not isinstance(cls, type) or not issubclass(cls, BaseException):\n        cls = None", "    if not isinstance(cls, type):\n        cls = None")),
+    M("c09-tb-always", "C09", "traceback always included", (V, "    if include_local_traceback:\n        try:", "    if include_local_traceback or val.args:\n        try:")),
+    M("c09-version-always", "C09", "version always included", (V, "    if include_local_version:", "    if include_local_version or True:")),
+    M("c09-instantiate-ignored", "C09", "custom class rebuilt for already imported modules regardless of the switch", (V, "    if instantiate_custom_exceptions:\n        if modname in sys.modules:", "    if instantiate_custom_exceptions or modname in sys.modules:\n        if modname in sys.modules:")),
+    M("c09-attrs-dropped", "C09", "attributes not restored for OSError family", (V, "    for name, attrval in attrs:\n        try:", "    for name, attrval in attrs:\n        if name == 'filename':\n            continue\n        try:")),
+    M("c09-import-always", "C09,C07", "module imported when instantiate is on (import switch ignored)", (V, "    if import_custom_exceptions and modname not in sys.modules:", "    if (import_custom_exceptions or instantiate_custom_exceptions) and modname not in sys.modules:")),
+    M("c09-args-repr-all", "C09", "all non-str args sent as repr", (V, "                if brine.dumpable(a):\n                    args.append(a)", "                if brine.dumpable(a) and type(a) is not bytes:\n                    args.append(a)")),
+    M("c09-generic-name", "C09", "generic stand-in loses module in its name", (V, '        fullname = "%s.%s" % (modname, clsname)', '        fullname = "%s" % (clsname,)')),
+    M("c09-revert-tbfmt", "C09,C08", "traceback formatting failure escapes again (revert of 1e81b3f)", (V, "        except Exception:\n            # e.g. a SyntaxError carrying ill-typed details makes the formatter itself raise\n            tbtext", "        except ZeroDivisionError:\n            tbtext")),
+]
